@@ -5,6 +5,12 @@ use crate::HARNESS;
 pub fn write_fixed() {
     let u = vmodel::fixedgen::fixed_universe();
     let p = format!("{}/fixed_universe/universe.json", HARNESS);
+    if std::path::Path::new(&p).exists() && std::env::var_os("VERIF_REGENERATE_FIXED").is_none() {
+        // the committed description is frozen: the golden corpus refers to it, and the generator behind its
+        // generated part has since evolved
+        eprintln!("{} exists and is frozen (the golden corpus refers to it); set VERIF_REGENERATE_FIXED=1 to overwrite, then run gen-corpus", p);
+        return;
+    }
     std::fs::create_dir_all(format!("{}/fixed_universe", HARNESS)).ok();
     std::fs::write(&p, serde_json::to_string_pretty(&u).unwrap()).unwrap();
     println!("wrote {} ({} definitions, {} subjects)", p, u.adts.len(), u.subjects.len());
